@@ -67,6 +67,10 @@ class A:
         self.variant = variant
         self.made = []
 
+    def scalar(self, base, rel=0.4):
+        """A scalar parameter that varies from case to case (so that state keyed on part of the arguments shows)."""
+        return float(base) * (1.0 + rel * float(self.rng.uniform(-1, 1)))
+
     def make(self, *a, **k):
         out = self._make(*a, **k)
         self.made.append(out)
@@ -116,7 +120,7 @@ def REG():
     reg("astronomy._astronomy.magnitude_to_flux", lambda a: ((a.make((5,), 0, 10),), {"waveband": "K"}))
     reg("astronomy._astronomy.flux_to_magnitude", lambda a: ((1e6,), {}))
     # functions
-    reg("functions.pupil.circle", lambda a: ((3.3, 9), {"circle_centre": (0.5, -1.0)}))
+    reg("functions.pupil.circle", lambda a: ((a.scalar(3.3), 9), {"circle_centre": (0.5, -1.0)}))
     reg("functions.zernike.phaseFromZernikes", lambda a: ((a.make((6,), -1, 1, ints=False), 12), {}))
     reg("functions.zernike.zernike_noll", lambda a: ((7, 12), {}))
     reg("functions.zernike.zernike_nm", lambda a: ((3, -1, 11), {}))
@@ -124,7 +128,7 @@ def REG():
     reg("functions.zernike.zernIndex", lambda a: ((23,), {}))
     reg("functions.zernike.zernikeArray", lambda a: (([2, 5, 3], 10), {"norm": "rms"}))
     reg("functions.zernike.makegammas", lambda a: ((3,), {}))
-    reg("functions._functions.gaussian2d", lambda a: (((8, 6), (2.0, 1.5)), {"cent": (3.0, 2.5)}))
+    reg("functions._functions.gaussian2d", lambda a: (((8, 6), (a.scalar(2.0), 1.5)), {"cent": (3.0, 2.5)}))
     K = "functions.karhunenLoeve."
     reg(K + "rebin", lambda a: ((a.make((4, 1), ints=False), (4, 6)), {}))
     reg(K + "stf_kolmogorov", lambda a: ((a.make((6,), 0.01, 2, ints=False),), {}))
@@ -135,7 +139,7 @@ def REG():
     reg(K + "piston_orth", lambda a: ((6,), {}))
     reg(K + "gkl_fcom", lambda a: ((0.2, _kl().gkl_kernel(0.2, 6, _kl().gkl_radii(0.2, 6)), 5), {}))
     reg(K + "gkl_azimuthal", lambda a: ((4, 30), {}))
-    reg(K + "gkl_basis", lambda a: ((0.25, 8, 40, 6), {}))
+    reg(K + "gkl_basis", lambda a: ((0.25, 8, 40, 4 + int(a.rng.integers(0, 5))), {}))
     reg(K + "gkl_sfi", lambda a: ((_basis(), 3), {}))
     reg(K + "radii", lambda a: ((6, 30, 0.2), {}))
     reg(K + "polang", lambda a: ((_kl().radii(6, 30, 0.2),), {}))
@@ -143,7 +147,7 @@ def REG():
     reg(K + "setpincs", lambda a: (_pincs_args(), {}))
     reg(K + "pcgeom", lambda a: ((8, 40, 16, 0.25, 0), {}))
     reg(K + "pol2car", lambda a: ((_kl().pcgeom(8, 40, 16, 0.25, 0), a.make((8, 40), -1, 1, ints=False)), {"mask": True}))
-    reg(K + "make_kl", lambda a: ((5, 12), {"ri": 0.3, "nr": 8}))
+    reg(K + "make_kl", lambda a: ((3 + int(a.rng.integers(0, 5)), 12), {"ri": 0.3, "nr": 8}))
     # transforms
     for n_ in ("ft", "ift"):
         reg("fouriertransform." + n_, lambda a: ((a.make((3, 8), -1, 1), 0.5), {}))
@@ -159,19 +163,19 @@ def REG():
     reg("interpolation.binImgs", lambda a: ((a.make((2, 6, 4), 0, 5), 2), {}))
     # optical propagation
     O = "opticalpropagation."
-    reg(O + "angularSpectrum", lambda a: ((a.make((8, 8), -1, 1, complex_=(a.variant in ("f64", "view", "readonly"))), 1e-6, 1e-3, 2e-3, 5.0), {}))
-    reg(O + "oneStepFresnel", lambda a: ((a.make((8, 8), -1, 1), 1e-6, 1e-3, -3.0), {}))
-    reg(O + "twoStepFresnel", lambda a: ((a.make((8, 8), -1, 1), 1e-6, 1e-3, 2e-3, 5.0), {}))
-    reg(O + "lensAgainst", lambda a: ((a.make((8, 8), -1, 1), 1e-6, 1e-3, 2.0), {}))
+    reg(O + "angularSpectrum", lambda a: ((a.make((8, 8), -1, 1, complex_=(a.variant in ("f64", "view", "readonly"))), a.scalar(1e-6, 1e-3), 1e-3, 2e-3, a.scalar(5.0)), {}))
+    reg(O + "oneStepFresnel", lambda a: ((a.make((8, 8), -1, 1), a.scalar(1e-6, 1e-3), 1e-3, -a.scalar(3.0)), {}))
+    reg(O + "twoStepFresnel", lambda a: ((a.make((8, 8), -1, 1), a.scalar(1e-6, 1e-3), 1e-3, 2e-3, a.scalar(5.0)), {}))
+    reg(O + "lensAgainst", lambda a: ((a.make((8, 8), -1, 1), a.scalar(1e-6, 3e-4), 1e-3, 2.0), {}))
     # turbulence
     P = "turbulence.phasescreen."
-    reg(P + "ft_phase_screen", lambda a: ((0.16, 8, 0.1, 25.0, 0.01), {"seed": 5}))
-    reg(P + "ft_sh_phase_screen", lambda a: ((0.16, 8, 0.1, 25.0, 0.01), {"seed": 5}))
+    reg(P + "ft_phase_screen", lambda a: ((a.scalar(0.16), 8, 0.1, a.scalar(25.0, 3e-6), 0.01), {"seed": 5}))
+    reg(P + "ft_sh_phase_screen", lambda a: ((a.scalar(0.16), 8, 0.1, 25.0, 0.01), {"seed": 5}))
     reg(P + "ift2", lambda a: ((a.make((6, 6), -1, 1, complex_=(a.variant == "f64")), 0.5), {}))
     I = "turbulence.infinitephasescreen."
     reg(I + "PhaseScreen", lambda a: ((), {}))
-    reg(I + "PhaseScreenVonKarman", lambda a: ((6, 0.1, 0.16, 25.0), {"random_seed": 3, "n_columns": 2}))
-    reg(I + "PhaseScreenKolmogorov", lambda a: ((6, 0.1, 0.16, 25.0), {"random_seed": 3, "stencil_length_factor": 2}))
+    reg(I + "PhaseScreenVonKarman", lambda a: ((6, 0.1, a.scalar(0.16), 25.0), {"random_seed": 3, "n_columns": 2}))
+    reg(I + "PhaseScreenKolmogorov", lambda a: ((6, 0.1, a.scalar(0.16), 25.0), {"random_seed": 3, "stencil_length_factor": 2}))
     reg(I + "find_allowed_size", lambda a: ((11,), {}))
     reg(I + "calc_seperations_fast", lambda a: ((a.make((5, 2), -1, 1, ints=False, f32=False) if a.variant != "view" else np.ascontiguousarray(a.make((5, 2), -1, 1)), np.zeros((5, 5))), {}))
     reg("turbulence.temporal_ps.calc_slope_temporalps", lambda a: ((a.make((2, 9, 4), -1, 1),), {}))
@@ -183,12 +187,12 @@ def REG():
     reg(S + "calculate_wfs_seperations", lambda a: ((3, 4, a.make((3, 2), -2, 2), a.make((4, 2), -2, 2)), {}))
     for n_ in ("xx", "yy", "xy"):
         reg(S + "compute_covariance_" + n_, lambda a: ((a.make((3, 4, 2), -2, 2, ints=False), 0.5, 0.4, 0.2, 20.0), {}))
-    reg(S + "structure_function_vk", lambda a: ((a.make((7,), 0.0, 30, ints=False), 0.2, 20.0), {}))
+    reg(S + "structure_function_vk", lambda a: ((a.make((7,), 0.0, 30, ints=False), a.scalar(0.2), a.scalar(20.0)), {}))
     reg(S + "structure_function_kolmogorov", lambda a: ((a.make((7,), 0.0, 30), 0.2), {}))
     reg(S + "calculate_structure_function", lambda a: ((a.make((12, 16), -1, 1),), {"step": 2}))
     reg(S + "mirror_covariance_matrix", lambda a: ((np.triu(np.ones((4, 4), dtype=np.float32)) if a.variant != "readonly" else _ro(np.triu(np.ones((4, 4), dtype=np.float32))),), {}))
     reg(S + "create_tomographic_covariance_reconstructor", lambda a: ((_psd(a), 1), {"svd_conditioning": 1e-6}))
-    reg("turbulence.turb.phase_covariance", lambda a: ((a.make((3, 4), 0.0, 30),  0.2, 20.0), {}))
+    reg("turbulence.turb.phase_covariance", lambda a: ((a.make((3, 4), 0.0, 30),  a.scalar(0.2), a.scalar(20.0)), {}))
     C = "turbulence.atmos_conversions."
     for n_, lo, hi in (("cn2_to_seeing", 1e-14, 1e-12), ("seeing_to_cn2", 0.3, 2), ("cn2_to_r0", 1e-14, 1e-12), ("r0_to_cn2", 0.05, 0.5), ("r0_to_seeing", 0.05, 0.5), ("seeing_to_r0", 0.3, 2)):
         reg(C + n_, (lambda lo, hi: lambda a: ((a.make((5,), lo, hi, ints=False, positive=True),), {"lamda": 1.2e-6}))(lo, hi))
